@@ -6,12 +6,15 @@ without being queued or retransmitted."
 
 `C15_valid_iff` (the address predicate), `C15_drop` (discarded frames), `C15_total` /
 `C15_total_net_fuel` (`update()` returns, open system, explicit fuel bound, modulo the contracts
-`L3Contracts` on `RF24.send` / `RF24.resend`).
+`L3Contracts` on `RF24.send` / `RF24.resend`); `C15_contracts` (the contracts are proved) and the
+unconditional `C15_total_proved`, `C15_total_net_fuel_proved`, `C15_total_after_begin_proved`,
+`C15_history_proved` (last section).
 -/
 import NrfProofs.Addr
 import NrfProofs.C15Drop
 import NrfProofs.C15Master
 import NrfProofs.C15Env
+import NrfProofs.C15Discharge
 import NrfProps.C07
 
 namespace Nrf.Props.C15
@@ -112,7 +115,8 @@ example : Discarded {} [1, 2, 3] ∧ Discarded {} [1, 0, 6, 0, 0, 0, 0, 0] := by
 Open system (the other nodes do not run inside the call), on top of the contracts `L3Contracts`
 (`NrfProofs/C15Contract.lean`) on the two `RF24` calls with a polling loop, `send(buf,
 send_only=True)` and `resend(send_only=True)`: from an idle transmitter they return and leave the
-transmitter idle.  Every other `RF24` call (`listen`, `auto_ack`, `open_tx_pipe`, `open_rx_pipe`,
+transmitter idle (the contracts are themselves proved: `C15_contracts`, last section of this
+file).  Every other `RF24` call (`listen`, `auto_ack`, `open_tx_pipe`, `open_rx_pipe`,
 `set_auto_retries`, `available`, `any`, `read`, `flush_tx`, register reads and writes) is executed,
 not assumed.
 
@@ -212,7 +216,7 @@ theorem C15_demo_ti : TI 144 25 75 demo15 where
   rt := rfl
   dyn := by decide
   feat := by decide
-  txs := ⟨⟨Or.inl rfl, fun _ h => by cases h⟩, fun h => absurd rfl h⟩
+  txs := ⟨⟨Or.inl rfl, fun _ h => (by cases h), Nat.zero_le _⟩, fun h => absurd rfl h, by decide⟩
   msg := by decide
   rx := by decide
   arr := by decide
@@ -355,5 +359,102 @@ example : RxOk [1, 0, 6, 0, 2, 0, 1, 0, 0x78] ∧ Discarded {} [1, 0, 6, 0, 2, 0
   show isValid 6 = false
   unfold isValid isValidGo
   decide
+
+/-! ## the two `RF24` contracts are proved: the unconditional statements
+
+`NrfProofs/C15Send.lean`, `NrfProofs/C15Discharge.lean`: `send(buf, send_only=True)` and
+`resend(send_only=True)` from an idle transmitter (`TxS`) return, leave the transmitter idle and do
+not touch the RX FIFO — in every world (any other radios, any fault list, whoever acknowledges or
+not).  The theorems above are kept as they were (they take the contracts as a hypothesis); the ones
+below are the same statements with the hypothesis supplied. -/
+
+/-- **the contracts hold** (what `send()` / `resend()` owe the network layer): every transmit
+    cycle the chip runs ends in TX_DS or MAX_RT, the polling loop sees it after at most one
+    `update()`, a failed payload stays queued with MAX_RT latched and visible in the cached status
+    byte, a three-level TX FIFO is drained by one CE pulse, and without ACK payloads nothing
+    enters the RX FIFO of the transmitter. -/
+theorem C15_contracts : L3Contracts := c15contracts
+
+/-- a transmitter with a failed payload pending: PWR_UP, PRIM_RX clear, ACK payloads off, one
+    `W_TX_PAYLOAD` entry in the TX FIFO, MAX_RT latched and cached, two payloads waiting in the
+    RX FIFO; a receiver that would acknowledge; the next three attempts are lost -/
+def demoTx : DrvState :=
+  { d := { rid := 0, status := 0x1E },
+    w := { radios := [{ config := 0x0E, feature := 5, dynpd := 0x3F, flags := 0x10,
+                        txFifo := [{ kind := .payload, data := [1, 2, 3], pid := some 1 }],
+                        rxFifo := [{ pipe := 1, data := [7] }, { pipe := 0, data := [8, 9] }] },
+                      { config := 0x0F, feature := 5, dynpd := 0x3F, ce := true }],
+           busyUntil := [0, 0], faults := [.packetLost, .ackLost, .packetLost] } }
+
+/-- non-vacuity of the contracts: `demoTx` satisfies every precondition of both (with something
+    to re-send, so that `resend()` does run transmit cycles) -/
+example : demoTx.Wf ∧ demoTx.cfg.config &&& 3 = 2 ∧ demoTx.cfg.feature &&& 2 = 0 ∧
+    demoTx.d.dynPl &&& 1 ≠ 0 ∧ TxS demoTx ∧ (demoTx.w.radio demoTx.d.rid).txFifo ≠ [] := by
+  refine ⟨?_, by decide, by decide, by decide, ⟨⟨Or.inr (by decide), by decide, by decide⟩, fun _ => by decide,
+    by decide⟩, by decide⟩
+  show demoTx.d.rid < demoTx.w.radios.length
+  decide
+
+/-- **`update()` returns** — `C15_total` without hypotheses on the driver: for every node role,
+    tree address, level, RX FIFO content, arrival script, lease table, queue, fault list, set of
+    other radios and clock, from any state with `NodeListens`, `TI Lm tt rt`, `DhcpIdle`, with any
+    fuel `f ≥ updateFuel Lm tt rt s.M`; the three facts hold again afterwards, `M` does not grow. -/
+theorem C15_total_proved (Lm tt rt : Nat) (hLm : 24 ≤ Lm) (s : NetState) (hl : NodeListens s)
+    (hi : TI Lm tt rt s) (hd : DhcpIdle s) (f : Nat) (hf : updateFuel Lm tt rt s.M ≤ f) :
+    ∃ r s', nexec (nodeUpdate f) s = (.ok r, s') ∧ NodeListens s' ∧ TI Lm tt rt s' ∧ DhcpIdle s' ∧
+      s'.M ≤ s.M ∧ s'.node.kind = s.node.kind :=
+  C15_total c15contracts Lm tt rt hLm s hl hi hd f hf
+
+/-- non-vacuity: the invariant is satisfiable (a master with a lease, a request in the RX FIFO,
+    three scripted arrivals), and the fuel bound is a concrete number for it -/
+example : TI 144 25 75 demo15 ∧ updateFuel 144 25 75 demo15.M = 22593 := ⟨C15_demo_ti, by decide⟩
+
+/-- **the fuel of the model's entry point suffices** — `C15_total_net_fuel` without hypotheses on
+    the driver -/
+theorem C15_total_net_fuel_proved (s : NetState) (hl : NodeListens s) (hi : TI 144 25 75 s)
+    (hd : DhcpIdle s) (hm : s.M ≤ 88000) :
+    ∃ r s', nexec apiUpdate s = (.ok r, s') ∧ NodeListens s' ∧ TI 144 25 75 s' ∧ DhcpIdle s' ∧ s'.M ≤ s.M :=
+  C15_total_net_fuel c15contracts s hl hi hd hm
+
+/-- non-vacuity: `demo15` is within the bound -/
+example : TI 144 25 75 demo15 ∧ demo15.M ≤ 88000 := ⟨C15_demo_ti, by decide⟩
+
+/-- **from `RF24.__init__` to a returning `update()`** — `C15_total_after_begin` without hypotheses
+    on the driver -/
+theorem C15_total_after_begin_proved (s : NetState) (ds : List Nat) (hn : IsNode ds)
+    (hw : s.drv.Wf) (hb : Base s.drv.d s.drv.cfg) (hc : CfgBytes s.node.cfg) (hi : TI 144 25 75 s)
+    (hd : s.node.doDhcp = false) (hm : s.M ≤ 88000) :
+    ∃ s0, nexec (begin (val ds)) s = (.ok (), s0) ∧ s0.M ≤ s.M ∧
+      ∃ r s', nexec apiUpdate s0 = (.ok r, s') ∧ NodeListens s' ∧ TI 144 25 75 s' :=
+  C15_total_after_begin c15contracts s ds hn hw hb hc hi hd hm
+
+/-- non-vacuity: the concrete master session satisfies every hypothesis (as for
+    `C15_total_after_begin`), for the master's own address and for node `0o21` -/
+example : IsNode [] ∧ IsNode [2, 1] ∧ demo15.drv.Wf ∧ Base demo15.drv.d demo15.drv.cfg ∧
+    CfgBytes demo15.node.cfg ∧ TI 144 25 75 demo15 ∧ demo15.node.doDhcp = false ∧ demo15.M ≤ 88000 := by
+  refine ⟨by decide, by decide, ?_, ?_, by unfold CfgBytes; decide, C15_demo_ti, rfl, by decide⟩
+  · show demo15.drv.d.rid < demo15.drv.w.radios.length; decide
+  · constructor <;> decide
+
+/-- **every `update()` of every history returns** — `C15_history` without hypotheses on the
+    driver (open system; fewer than 88000 frames outstanding in total) -/
+theorem C15_history_proved (cs : List Call) (s : NetState) (hl : NodeListens s)
+    (hi : TI 144 25 75 s) (hd : DhcpIdle s) (hcs : ∀ c ∈ cs, UpdEnv c) (hm : s.M + cs.length ≤ 88000) :
+    ∃ s', Runs cs s s' ∧ NodeListens s' ∧ TI 144 25 75 s' ∧ DhcpIdle s' ∧ s'.M ≤ s.M + cs.length :=
+  C15_history c15contracts cs s hl hi hd hcs hm
+
+/-- non-vacuity: a history with a fault list chosen by the environment, an arrival, two
+    `update()` calls and an injected frame for an invalid address -/
+example : (∀ c ∈ [Call.envFaults [.packetLost, .ackLost], .envArrive 0 1 [1, 2, 3], .update,
+      .envInject 1 [1, 0, 6, 0, 0, 0, 0, 0], .update], UpdEnv c) ∧ demo15.M + 5 ≤ 88000 := by
+  refine ⟨?_, by decide⟩
+  intro c hc
+  simp only [List.mem_cons, List.not_mem_nil, or_false] at hc
+  rcases hc with rfl | rfl | rfl | rfl | rfl
+  · trivial
+  · show RxOk _; decide
+  · trivial
+  · show RxOk _; decide
+  · trivial
 
 end Nrf.Props.C15
